@@ -230,7 +230,10 @@ def eigen_sym33_non_unit(tensor):
     #
     b = 0.5*(rm2xx-rm2yy)
 
-    sqrtTerm = Math.safe_sqrt(b*b+rm2xy_rm2xy)*np.where(b < 0.0, -1.0, 1.0)
+    # either sign yields an eigenvalue; it only has to be chosen consistently (see tieBias)
+    # when b vanishes up to rounding
+    sqrtTerm = Math.safe_sqrt(b*b+rm2xy_rm2xy)
+    sqrtTerm = np.where(b < -(tieBias - 1.0)*sqrtTerm, -sqrtTerm, sqrtTerm)
     #sqrtTerm = np.sqrt(b*b+rm2xy_rm2xy)*np.sign(b)
     
     eval0 = rm2yy + b - sqrtTerm
